@@ -161,6 +161,12 @@ Definition run_ops (c : cfg) (orc : oracle) (init : Z -> option str) (ops : list
 
 Definition state_of (r : res) : state := match r with Ok s => s | Raise _ s => s end.
 
+(* descriptor accounting on the OS-call trace *)
+Definition n_opened (tr : list event) : nat :=
+  length (filter (fun e => match e with EvOpen _ _ _ ok => ok | EvClose _ => false end) tr).
+Definition n_closed (tr : list event) : nat :=
+  length (filter (fun e => match e with EvOpen _ _ _ _ => false | EvClose _ => true end) tr).
+
 (* ---- specification: what every file must contain *)
 Definition writes_of (p : Z) (ops : list wop) : str :=
   concat (map w_str (filter (fun o => w_path o =? p) ops)).
